@@ -3,6 +3,7 @@ import YardlModel.Streams
 import YardlModel.Batch
 import YardlModel.Expr
 import YardlModel.Imports
+import YardlModel.Proto
 
 /-! Line-protocol driver for the wire engine: one JSON request per line on stdin, one JSON
     reply per line on stdout. -/
@@ -143,6 +144,13 @@ def targetOfString : String → Except String Target
   | "cpp" => pure .cpp | "python" => pure .python | "matlab" => pure .matlab
   | s => throw s!"bad target {s}"
 
+/-- index of the first rejected op (none = all accepted) and the final state -/
+def firstReject {σ ο : Type} (f : σ → ο → Option σ) : σ → List ο → Nat → Option Nat × σ
+  | s, [], _ => (none, s)
+  | s, op :: ops, i => match f s op with
+    | none => (some i, s)
+    | some s' => firstReject f s' ops (i + 1)
+
 def handle (j : Json) : Except String Json := do
   let op ← (← j.getObjVal? "op").getStr?
   match op with
@@ -235,6 +243,37 @@ def handle (j : Json) : Except String Json := do
       let s := match e with
         | .missing => "missing" | .cycle => "cycle" | .conflict => "conflict" | .depth => "depth"
       pure (Json.mkObj [("verdict", Json.str s)])
+  | "proto_run" =>
+    let machine ← (← j.getObjVal? "machine").getStr?
+    let shape ← (← j.getObjVal? "shape").getArr?
+    let shape ← shape.toList.mapM (·.getBool?)
+    let ops ← (← j.getObjVal? "ops").getArr?
+    let tok (o : Json) : Except String (String × Nat × Bool) := do
+      let a ← o.getArr?
+      let t ← (a[0]?.getD Json.null).getStr?
+      let i := ((a[1]?.getD (Json.num 0)).getNat?).toOption.getD 0
+      let b := ((a[2]?.getD (Json.bool false)).getBool?).toOption.getD false
+      pure (t, i, b)
+    let toks ← ops.toList.mapM tok
+    let fin (r : Option Nat × Nat) : Json :=
+      Json.mkObj [("reject", match r.1 with | some i => jn i | none => Json.null), ("state", jn r.2)]
+    match machine with
+    | "cppW" | "pyW" =>
+      let wops ← toks.mapM fun (t, i, _) => match t with
+        | "w" => pure (Proto.WOp.write i) | "e" => pure (Proto.WOp.endS i) | "c" => pure Proto.WOp.close
+        | _ => throw s!"bad wop {t}"
+      pure (fin (firstReject (if machine == "cppW" then Proto.cppW shape else Proto.pyW shape) 0 wops 0))
+    | "cppR" =>
+      let rops ← toks.mapM fun (t, i, b) => match t with
+        | "r" => pure (Proto.ROp.read i b) | "B" => pure (Proto.ROp.batch i b) | "c" => pure Proto.ROp.close
+        | _ => throw s!"bad rop {t}"
+      pure (fin (firstReject (Proto.cppR shape) 0 rops 0))
+    | "pyR" =>
+      let rops ← toks.mapM fun (t, i, _) => match t with
+        | "r" => pure (Proto.PROp.read i) | "x" => pure (Proto.PROp.exhaust i) | "c" => pure Proto.PROp.close
+        | _ => throw s!"bad prop {t}"
+      pure (fin (firstReject (Proto.pyR shape) 0 rops 0))
+    | _ => throw s!"bad machine {machine}"
   | "cos" =>
     let lang ← (← j.getObjVal? "lang").getStr?
     let cap ← jNat (← j.getObjVal? "cap")
